@@ -328,6 +328,42 @@ fn integer_range_family(acc: &mut Acc) {
     }
 }
 
+/// Integer properties of every type under easings whose eased fraction leaves [0,1] (the Back family dips below 0
+/// and overshoots 1): the value is still the linear interpolation at that fraction, i.e. it undershoots the segment's
+/// start and overshoots its end, for unsigned types exactly as for signed ones. Keyframe values are far from the
+/// ends of every type's range (100 <-> 200), the fraction is taken from the real Easing::calc (decided by C13).
+fn back_easing_family(acc: &mut Acc) {
+    for (ei, (name, easing, _)) in crate::c13::table().iter().enumerate() {
+        if !name.contains("Back") {
+            continue;
+        }
+        for (di, (v0, v1)) in [(100i128, 200i128), (200, 100)].into_iter().enumerate() {
+            let kf = |pos: f32, v: i128| Ints::keyframe(pos).a(v as u64).b(v as usize).c(v as i64).d(v as u32).e(v as i32).f(v as u16).g(v as i16).h(v as u8).i((v - 100) as i8);
+            let tl = Ints::timeline().duration_seconds(1.0).default_easing(easing.clone()).keyframe(kf(0.0, v0)).keyframe(kf(1.0, v1)).build();
+            acc.timelines += 1;
+            for j in 0..=64u32 {
+                let x = j as f32 / 64.0;
+                let f = mina::EasingFunction::calc(easing, x) as f64;
+                let mut got = Ints::default();
+                let ok = std::panic::catch_unwind(std::panic::AssertUnwindSafe(|| tl.update(&mut got, x))).is_ok();
+                acc.evals += 1;
+                let g: [i128; 9] = [got.a as i128, got.b as i128, got.c as i128, got.d as i128, got.e as i128, got.f as i128, got.g as i128, got.h as i128, got.i as i128 + 100];
+                let real = v0 as f64 + (v1 - v0) as f64 * f;
+                if !(0.0..=1.0).contains(&f) {
+                    acc.nontrivial += 9;
+                }
+                for (fi, ty) in ["u64", "usize", "i64", "u32", "i32", "u16", "i16", "u8", "i8"].iter().enumerate() {
+                    if !ok || (g[fi] as f64 - real).abs() > 0.5 + 1e-3 {
+                        acc.sink.add(&format!("fraction-outside-unit-interval:{ty}"), (6u64 << 60) | (ei as u64) << 16 | (di as u64) << 8 | j as u64, || {
+                            (format!("{ty} property {v0} -> {v1} under {name} at position {x}: eased fraction {f}, got {}, linear interpolation at that fraction {real}", if ok { g[fi].to_string() } else { "a panic".into() }), json!({"family": "integer-range", "easing": name, "type": ty, "x": x}))
+                        });
+                    }
+                }
+            }
+        }
+    }
+}
+
 pub fn run(run: Run) -> ! {
     let nmax = if run.is_thorough() { 5 } else { 3 };
     let thetas = theta();
@@ -418,6 +454,7 @@ pub fn run(run: Run) -> ! {
     acc.nontrivial += wt.nontrivial;
     acc.ambiguous_skipped += wt.ambiguous_skipped;
     integer_range_family(&mut acc);
+    back_easing_family(&mut acc);
     let mut cov = Map::new();
     cov.insert("wide_and_tall_family_evaluations".into(), json!(wt_evals));
     cov.insert("wide_family_keyframe_counts".into(), json!(wide_js.iter().map(|j| (1u64 << j) + 1).collect::<Vec<_>>()));
@@ -428,7 +465,7 @@ pub fn run(run: Run) -> ! {
     cov.insert("traces_validated_against_impl".into(), json!(acc.evals));
     cov.insert("evaluations".into(), json!(acc.evals));
     cov.insert("distinct_nontrivial".into(), json!(acc.nontrivial));
-    cov.insert("rule".into(), json!(format!("every keyframe list of size 0..={nmax} over positions {{0,1/4,1/2,3/4,1}} (ascending insertion, repeated positions included) x per-keyframe property subset in {{none,a,k,a+k}} x per-keyframe easing in {{none,x^2,1-(1-x)^2}} x default easing in {{Linear,OutBack}} (and, below the largest size, the same lists with the f64 property d in place of a) x 6 timing configurations x {{no start_with, start_with(v*)}} x time grid tau (32 points per cycle, all phases, 1e6, f32::MAX); states = timelines built, transitions = Timeline::update calls, each compared with RefTimeScale.RefCss; plus a non-dyadic companion family (positions 0,0.1,0.3,0.7,1; cycles 0.3,3,0.7,7; delay 0.1; built-in easings Ease/InQuad/InOutCubic; 29 irrational-offset samples per cycle) under the same tolerance, skipping samples within the f32 jitter window of a discontinuity of the time map; plus a WIDE family (one timeline of 2^j+1 keyframes at i/2^j for the j listed under wide_family_keyframe_counts, two property patterns - dense a / sparse k,d and sparse a / dense k - evaluated at every keyframe position and every segment midpoint, forward, reverse and repeated pass) a STEPPED family (2^j holds, j = 4..8 quick / 1..12 thorough: every hold is two keyframes, neighbouring holds meet in two tied keyframes with different values, all end-of-hold keyframes inserted before all start-of-hold keyframes - the value inside every hold must be the hold's value) a MICRO family (two keyframes of one property closer than f32::EPSILON - 2^-24, 2^-30, 2..16 ulp apart at 1/8, 1/4, 3/8, 2^-10 - evaluated at the floats strictly between them) an EXPLICIT-LINEAR family (keyframe easing alphabet {{none, Linear, x^2}} under the default OutBack), a CLUSTER family (17 regular keyframes plus 8 on consecutive f32 values just above 1/2, inserted in four orders) and a TALL family (every subset of size >= 2 of the grid {{0,1/8,..,1}} as position list, two content patterns, every 1/32), both with and without start_with: index arithmetic beyond the small-scope bound; plus an INTEGER-RANGE family (a struct with one property of each of u64 usize i64 u32 i32 u16 i16 u8 i8, three keyframes with values from the far ends of each type's range - 2^63+2^62, -2^63, 2^31+2^30, 192, -128 ... - all exactly representable, three timings, every sixteenth of a pass: exact linear interpolation); a (case,property) is non-trivial when the position lies strictly between two defining keyframes with different values")));
+    cov.insert("rule".into(), json!(format!("every keyframe list of size 0..={nmax} over positions {{0,1/4,1/2,3/4,1}} (ascending insertion, repeated positions included) x per-keyframe property subset in {{none,a,k,a+k}} x per-keyframe easing in {{none,x^2,1-(1-x)^2}} x default easing in {{Linear,OutBack}} (and, below the largest size, the same lists with the f64 property d in place of a) x 6 timing configurations x {{no start_with, start_with(v*)}} x time grid tau (32 points per cycle, all phases, 1e6, f32::MAX); states = timelines built, transitions = Timeline::update calls, each compared with RefTimeScale.RefCss; plus a non-dyadic companion family (positions 0,0.1,0.3,0.7,1; cycles 0.3,3,0.7,7; delay 0.1; built-in easings Ease/InQuad/InOutCubic; 29 irrational-offset samples per cycle) under the same tolerance, skipping samples within the f32 jitter window of a discontinuity of the time map; plus a WIDE family (one timeline of 2^j+1 keyframes at i/2^j for the j listed under wide_family_keyframe_counts, two property patterns - dense a / sparse k,d and sparse a / dense k - evaluated at every keyframe position and every segment midpoint, forward, reverse and repeated pass) a STEPPED family (2^j holds, j = 4..8 quick / 1..12 thorough: every hold is two keyframes, neighbouring holds meet in two tied keyframes with different values, all end-of-hold keyframes inserted before all start-of-hold keyframes - the value inside every hold must be the hold's value) a MICRO family (two keyframes of one property closer than f32::EPSILON - 2^-24, 2^-30, 2..16 ulp apart at 1/8, 1/4, 3/8, 2^-10 - evaluated at the floats strictly between them) an EXPLICIT-LINEAR family (keyframe easing alphabet {{none, Linear, x^2}} under the default OutBack), a CLUSTER family (17 regular keyframes plus 8 on consecutive f32 values just above 1/2, inserted in four orders) and a TALL family (every subset of size >= 2 of the grid {{0,1/8,..,1}} as position list, two content patterns, every 1/32), both with and without start_with: index arithmetic beyond the small-scope bound; plus an INTEGER-RANGE family (a struct with one property of each of u64 usize i64 u32 i32 u16 i16 u8 i8, three keyframes with values from the far ends of each type's range - 2^63+2^62, -2^63, 2^31+2^30, 192, -128 ... - all exactly representable, three timings, every sixteenth of a pass: exact linear interpolation) and the same struct 100 <-> 200 under the Back easings, whose eased fraction leaves [0,1] (unsigned properties undershoot and overshoot like signed ones); a (case,property) is non-trivial when the position lies strictly between two defining keyframes with different values")));
     cov.insert("exhaustive".into(), json!(true));
     cov.insert("max_keyframes".into(), json!(nmax));
     cov.insert("ambiguous_positions_skipped".into(), json!(acc.ambiguous_skipped));
@@ -449,6 +486,7 @@ pub fn replay(case: &Value) -> bool {
     if case["family"] == "integer-range" {
         let mut acc = Acc::default();
         integer_range_family(&mut acc);
+        back_easing_family(&mut acc);
         for (s, v) in &acc.sink.map {
             println!("{s}: {}", v.desc);
         }
